@@ -454,7 +454,7 @@ def run(ctx):
         # coqchk (framework, thorough tier) re-checks Interval/Coquelicot for the Props files that import them and does not
         # finish in the tier's budget: give it 5 minutes per library (a timeout is recorded, not a failure)
         os.environ.setdefault('VERIF_COQCHK_TIMEOUT', '300')
-        props = ('Props.v', 'PropsR.v', 'PropsS.v', 'Props2.v', 'Props3.v', 'Props4.v', 'Props5.v')
+        props = ('Props.v', 'PropsR.v', 'PropsS.v', 'Props2.v', 'Props3.v', 'Props4.v', 'Props5.v', 'Props6.v')
         built = ctx.coq_build(props=props, timeout=1500 if ctx.thorough else 600, extra_files=extra)
         if ctx.thorough and built: agree_stage(ctx, tdir, budget=int(os.environ.get('VERIF_C15_TILE_BUDGET', '1000')))
         ctx.log('coq build done: %d theorem(s)' % len([t for t in ctx.theorems if t[1] is not None]))
